@@ -11,10 +11,12 @@ before the first result is projected, no expression is rejected, fixed lists hav
 and every projected value of a fixed-order column is in its list.
 -/
 import Model.Spec.Name
+import Model.Spec.ParseNum
 import Model.Proc.Projection
 
 namespace Spec.Keys
-open Proc.Sort (Order NumC)
+open Proc.Sort (Order)
+open Spec.ParseNum (SNum)
 open Proc.Projection (Res Spec)
 
 /-- Operations of a scenario on one parser. -/
@@ -160,22 +162,21 @@ def bytesLt : Bytes → Bytes → Bool
     if a.toNat < b.toNat then true else if b.toNat < a.toNat then false else bytesLt as bs
 
 /-- The documented rank of a value in a column: observation order / nothing (bytewise) /
-numbers before NaN before non-numbers / position in the list. -/
-def rank (pn : Bytes → NumC) (o : Order) (observed : List Bytes) (v : Bytes) : Nat × Int :=
+numbers by value before NaN before non-numbers (`Spec.ParseNum.rank`) / position in the list.
+`num` gives the numeric value of a string: `Spec.ParseNum.parseNum`, reconciled with the float64
+the implementation reported where that float is a faithful image of the specified value. -/
+def rank (num : Bytes → SNum) (o : Order) (observed : List Bytes) (v : Bytes) : Nat × Rat :=
   match o with
   | .first => (firstIndex observed v, 0)
   | .alpha => (0, 0)
-  | .num => match pn v with
-    | .val k => (0, k)
-    | .nan => (1, 0)
-    | .err => (2, 0)
+  | .num => Spec.ParseNum.rank (num v)
   | .fixed l => (firstIndex l v, 0)
 
-def rankLt (a b : Nat × Int) : Bool := a.1 < b.1 || (a.1 == b.1 && a.2 < b.2)
+def rankLt (a b : Nat × Rat) : Bool := a.1 < b.1 || (a.1 == b.1 && a.2 < b.2)
 
 /-- Lexicographic over the columns; values the column order cannot separate fall back to
 bytewise order. `cols` carries, per column, its order and the values observed in it. -/
-def tupleLess (pn : Bytes → NumC) : List (Order × List Bytes) → List Bytes → List Bytes → Bool
+def tupleLess (pn : Bytes → SNum) : List (Order × List Bytes) → List Bytes → List Bytes → Bool
   | (o, observed) :: cs, a :: as, b :: bs =>
     if a == b then tupleLess pn cs as bs
     else
